@@ -122,8 +122,9 @@ def replay(name: str, item_repr: str, witness: Any) -> bool:
 
 
 def run(tier: str, seed: int, known: list[dict[str, Any]]) -> dict[str, Any]:
-    items: list[tuple[str, Any]] = [p for i, p in enumerate(programs(tier, seed)) if tier != "quick" or i % 2 == 0 or p[0].startswith("F4.")]
-    items += list(f6_raw(seed, 200 if tier == "quick" else 4000))
+    # thorough: every 2nd program of the (much larger) thorough families - all of them did not finish in 33 min
+    items: list[tuple[str, Any]] = [p for i, p in enumerate(programs(tier, seed)) if i % 2 == 0 or p[0].startswith("F4.")]
+    items += list(f6_raw(seed, 200 if tier == "quick" else 2000))
     r = trun.run_family("C09", "C09.E3", task, items, known, classify, bounds="F6 inputs: map keys and positions vs the text")
     r["headline"] = f"{r['programs']} concrete inputs: every map entry is keyed by an input offset, points at the first " \
                     f"character of a statement line and agrees on the line with the map of compiling the emitted text; statements " \
